@@ -82,7 +82,8 @@ class FormulaParser(Parser):
             elif isinstance(p[3], error.XLError):
                 p[0] = p[3]
             else:
-                p[0] = str(p[1]) + str(p[3])
+                # a blank operand joins as nothing
+                p[0] = ''.join('' if v is None else str(v) for v in (p[1], p[3]))
         else:
             p[0] = operators.evaluate_arithmetic(p[2], p[1], p[3])
 
